@@ -72,7 +72,7 @@ Optimise(k, sw, out, expr) ==
   /\ phase = "loaded" /\ IsSw(sw) /\ k = Len(objs)
   /\ out = "ok"
   /\ PrintOk(sw, expr)
-  /\ objs' = Append(objs, [sw |-> sw, st |-> "ok"])
+  /\ objs' = Append(objs, [sw |-> sw, st |-> "ok", src |-> 0])
   /\ prints' = IF expr = <<>> THEN prints ELSE IF PrintBound(sw) THEN prints ELSE Append(prints, <<SwKey(sw), expr>>)
   /\ UNCHANGED <<cur, phase, den>>
 
@@ -82,11 +82,20 @@ Optimise(k, sw, out, expr) ==
 (* C14), so that those checks do not depend on C01.                                            *)
 ScopeSw == "plan" \in DOMAIN cur /\ "scope" \in DOMAIN cur.plan /\ cur.plan.scope = "sw"
 Cls(k) == IF ScopeSw /\ k + 1 \in DOMAIN objs THEN objs[k + 1].sw ELSE <<>>
-DK(k, d) == <<Cls(k), d>>
+(* the source an object was loaded from: 0 = the case's rule, i = alternative i *)
+SrcIdx(k) == IF k + 1 \in DOMAIN objs THEN objs[k + 1].src ELSE 0
+SrcOf(k) == IF SrcIdx(k) = 0 THEN cur.src ELSE cur.alts[SrcIdx(k)]
+AllSrcs == <<cur.src>> \o (IF "alts" \in DOMAIN cur THEN cur.alts ELSE <<>>)
+(* Alternative sources are claimed to denote the same only where the rule language pins the     *)
+(* verdict of each of them on the document (e.g. of(X, 0) with some entries false and others    *)
+(* missing is left open, and its explicit form with `not` may differ there).                    *)
+Pinned(d) == ~HasOracle(cur) \/ "alts" \notin DOMAIN cur \/
+             \A i \in DOMAIN AllSrcs : Cardinality(LangVerdicts(AllSrcs[i], cur.docs[d])) = 1
+DK(k, d) == <<Cls(k), IF Pinned(d) THEN 0 ELSE SrcIdx(k), d>>
 
 (* the verdicts the specification allows for object k on document d (1-based)               *)
 Allowed(k, d) ==
-  (IF HasOracle(cur) /\ TextOk(cur.src) THEN LangVerdicts(Ast(cur.src), cur.docs[d]) ELSE BOOLEAN)
+  (IF HasOracle(cur) /\ TextOk(SrcOf(k)) THEN LangVerdicts(Ast(SrcOf(k)), cur.docs[d]) ELSE BOOLEAN)
   \cap (IF DK(k, d) \in DOMAIN den THEN {den[DK(k, d)]} ELSE BOOLEAN)
 
 Bind(k, d, v) == IF DK(k, d) \in DOMAIN den THEN den
@@ -137,13 +146,23 @@ Validate(k, out, kind, named) ==
 (* serde_yaml::to_string(&rule) then Rule::from_str / from_value (C14): the reloaded rule has    *)
 (* the same condition, identifiers and examples (`same`), and is a further object of the case - *)
 (* its verdicts are checked against the case's denotation like any other object's.             *)
+(* An ALTERNATIVE source of the case (cur.alts): a different way of writing the same rule - the *)
+(* explicit form of a quantifier (C08), a permutation of operands (C17).  Loaded and optimised  *)
+(* like object `from`; it joins that object's class, so its verdicts must be the case's.        *)
+LoadAlt(i, from, k, out) ==
+  /\ phase = "loaded" /\ from + 1 \in DOMAIN objs /\ k = Len(objs)
+  /\ "alts" \in DOMAIN cur /\ i + 1 \in DOMAIN cur.alts
+  /\ out = "ok"
+  /\ objs' = Append(objs, [sw |-> objs[from + 1].sw, st |-> "ok", src |-> i + 1])
+  /\ UNCHANGED <<cur, phase, den, prints>>
+
 Serialise(k, out) == /\ phase = "loaded" /\ k + 1 \in DOMAIN objs /\ out = "ok" /\ UNCHANGED rvars
 Reload(from, k, out, same) ==
   /\ phase = "loaded" /\ from + 1 \in DOMAIN objs /\ k = Len(objs)
   /\ out = "ok" /\ same
   \* the reloaded rule is parsed afresh from the serialised source: it is an object of the
   \* "not optimised" class whatever was done to the object it was serialised from
-  /\ objs' = Append(objs, [sw |-> NoSw, st |-> "ok"])
+  /\ objs' = Append(objs, [sw |-> NoSw, st |-> "ok", src |-> objs[from + 1].src])
   /\ UNCHANGED <<cur, phase, den, prints>>
 
 (* C12 as an action property: matching never changes a rule object *)
